@@ -66,6 +66,12 @@ func decShards(prop string, props map[string]bool, levels []int) func(tier strin
 			for _, c := range decConfigs(tier) {
 				c, level := c, level
 				depth, maxBytes, cap := decDepth(tier, level)
+				if c.W == 3 && c.B == 12 {
+					if level == 1 {
+						continue // this geometry is for the DecoderBuffer level (Read after the capacity has been used up)
+					}
+					depth = 3
+				}
 				if c.B > 64 {
 					if level == 0 {
 						continue // the large geometry is explored at Decoder level only
